@@ -1073,24 +1073,28 @@ loop:
 // zshNumRange peeks at the bytes after '<' to check for a zsh numeric
 // range glob pattern like <->, <5->, <-10>, or <5-10>.
 func (p *Parser) zshNumRange() bool {
-	// Peeking a handful of bytes here should be enough.
-	// TODO: This should loop for slow readers, e.g. those providing one byte at
-	// a time. Use a loop and test it with [testing/iotest.OneByteReader].
-	if int(p.bsp) >= len(p.bs) {
-		p.fill()
+	// at returns the i-th byte after the current position, refilling the
+	// buffer as needed; slow readers may provide one byte at a time.
+	at := func(i int) byte {
+		for int(p.bsp)+i >= len(p.bs) {
+			if len(p.bs)-int(p.bsp) >= len(p.readBuf) || p.fill() == 0 {
+				return utf8.RuneSelf // the buffer is full, or there is no more input
+			}
+		}
+		return p.bs[int(p.bsp)+i]
 	}
-	rest := p.bs[p.bsp:]
-	for len(rest) > 0 && rest[0] >= '0' && rest[0] <= '9' {
-		rest = rest[1:]
+	i := 0
+	for b := at(i); b >= '0' && b <= '9'; b = at(i) {
+		i++
 	}
-	if len(rest) == 0 || rest[0] != '-' {
+	if at(i) != '-' {
 		return false
 	}
-	rest = rest[1:]
-	for len(rest) > 0 && rest[0] >= '0' && rest[0] <= '9' {
-		rest = rest[1:]
+	i++
+	for b := at(i); b >= '0' && b <= '9'; b = at(i) {
+		i++
 	}
-	return len(rest) > 0 && rest[0] == '>'
+	return at(i) == '>'
 }
 
 func (p *Parser) advanceLitNone(r rune) {
